@@ -472,16 +472,36 @@ class Interp:
                     continue
                 tables = [a.value for a in walk_no_nested(fr.func.node) if isinstance(a, ast.Assign) and len(a.targets) == 1 and
                           isinstance(a.targets[0], ast.Name) and a.targets[0].id == n.iter.id]
-                if len(tables) != 1 or not isinstance(tables[0], (ast.Tuple, ast.List)):
+                params = fr.func.params()
+                if not tables and n.iter.id in params and fr.cls is not None:
+                    # the table is a parameter: read it at every call site `self.<this method>(.., table, ..)` of the class
+                    pos = params.index(n.iter.id) - 1
+                    sites = [c for m in fr.cls.methods.values() for c in walk_no_nested(m.node) if isinstance(c, ast.Call) and
+                             norm(c.func) == "self." + fr.func.name]
+                    for c in sites:
+                        arg = c.args[pos] if 0 <= pos < len(c.args) else next((k.value for k in c.keywords if k.arg == n.iter.id), None)
+                        caller = next(m for m in fr.cls.methods.values() if any(x is c for x in walk_no_nested(m.node)))
+                        if isinstance(arg, ast.Name):
+                            tables += [a.value for a in walk_no_nested(caller.node) if isinstance(a, ast.Assign) and len(a.targets) == 1 and
+                                       isinstance(a.targets[0], ast.Name) and a.targets[0].id == arg.id] or [None]
+                        else:
+                            tables.append(arg)
+                    if not sites or any(t is None for t in tables):
+                        return None
+                elif len(tables) != 1:
                     return None
                 out = []
-                for row in tables[0].elts:
-                    if not isinstance(row, (ast.Tuple, ast.List)) or len(row.elts) <= idx[0]:
+                for tab in tables:
+                    if not isinstance(tab, (ast.Tuple, ast.List)):
                         return None
-                    c = row.elts[idx[0]]
-                    if not (isinstance(c, ast.Attribute) and norm(c.value) == "self"):
-                        return None
-                    out.append(c.attr)
+                    for row in tab.elts:
+                        if not isinstance(row, (ast.Tuple, ast.List)) or len(row.elts) <= idx[0]:
+                            return None
+                        c = row.elts[idx[0]]
+                        if not (isinstance(c, ast.Attribute) and norm(c.value) == "self"):
+                            return None
+                        if c.attr not in out:
+                            out.append(c.attr)
                 return out
         return None
 
